@@ -10,12 +10,15 @@ CHECKS = {
             {"pkg": "Havoc/pkg/agent", "with": AGENT_WITH, "entries": ["H_c01_dispatch"], "shards": 16},
             {"pkg": "Havoc/pkg/handlers", "with": ["Havoc/pkg/agent"] + AGENT_WITH, "entries": ["H_c01_request_raw"], "shards": 8},
             {"pkg": "Havoc/pkg/handlers", "with": ["Havoc/pkg/agent"] + AGENT_WITH, "entries": ["H_c01_request_hdr"], "shards": 4},
+            {"pkg": "Havoc/pkg/agent", "with": AGENT_WITH, "entries": ["H_c01_pivot_nested"], "shards": 2},
+            {"pkg": "Havoc/cmd/server", "with": SRV_WITH, "entries": ["H_c01_service_lookup"]},
             {"pkg": "Havoc/pkg/agent", "with": AGENT_WITH + ["Havoc/pkg/common/parser@lazy"], "entries": ["H_c01_dispatch_lazy"], "shards": 31, "flags": ["-loop-cut", "TaskDispatch=2"]},
             {"pkg": "Havoc/pkg/agent", "with": AGENT_WITH, "entries": ["H_c01_dispatch_deep"], "shards": 64, "flags": ["-conc-limit", "2", "-time", "240s", "-loop-cut", "TaskDispatch=3"], "disabled": True},
         ],
-        "bounds": "TaskDispatch: every command id with a case + one arbitrary other id; body 0..24 arbitrary bytes; state S (3 agents, pivot child, open socket/portfwd).",
-        "outside": "bodies longer than the bound; goroutines started by SOCKET READ; gin/net/http",
+        "bounds": "TaskDispatch raw: every command id with a case + one arbitrary other id, body of every length 0..8, all byte values; TaskDispatch lazy: every command except CHECKIN/KERBEROS on an on-demand generated input (every requested field present with arbitrary integer values, length-prefixed fields of 0,1,2,40 bytes [0,2 for FS, DEMON_INFO, INLINEEXECUTE, TOKEN, NET] of fixed content, input may end at every check, at most 2 visits of any TaskDispatch loop header, at most 40 fields); request handler: raw body 0..24 bytes and valid header + 0..14 bytes against state S (3 agents, pivot child, queue shapes incl. pivot-wrapped and operator pivot job, service on/off); nested pivot callbacks (connect with truncated registration, relayed callback 0..8 bytes); service lookup with/without Service block.",
+        "outside": "bodies longer than the bounds; field contents in the lazy harness; goroutines started by SOCKET READ (recorded, not run); gin/net/http; more than 3 agents",
         "min_completed": 5,
+        "min_completed_per_entry": {"H_c01_service_lookup": 3},
     },
     "C05": {
         "groups": [
